@@ -708,7 +708,11 @@ func runHarness(ld *Loaded, fn *ssa.Function, cfg *HarnessCfg, nworkers int, mir
 			st := newStats()
 			all[w] = st
 			tt := NewTermTable()
-			sol, err := NewSolver(tt, timeoutMs, mirrors)
+			tmo := timeoutMs
+			if v, ok := cfg.Opts["timeout"]; ok {
+				fmt.Sscanf(v, "%d", &tmo)
+			}
+			sol, err := NewSolver(tt, tmo, mirrors, cfg.Opts["primary"])
 			if err != nil {
 				st.SolverErrors = append(st.SolverErrors, err.Error())
 				return
